@@ -6,6 +6,7 @@ CONSTANTS
   SchedOps <- QSchedOps
   SolOps <- MCSolOps
   StartMonths <- MCStart
+  IntOps <- MCIntOps
   Dms <- MCDms
 VIEW View
 INVARIANTS AlwaysNever Nth Spaced NoneSkipped
